@@ -296,3 +296,6 @@ Proof.
   - apply wf_try_fit_word. apply Qred_canonical.
   - rewrite value_try_fit_word. exact E.
 Qed.
+
+Lemma is_word_zero_value_c x : is_word_zero x = true -> value x == 0.
+Proof. destruct x as [n d|q]; simpl; [|discriminate]. intros E. assert (n = 0) by lia. subst. reflexivity. Qed.
